@@ -4,6 +4,7 @@ import NgVerif.Model.Stats
 import NgVerif.Model.Morton
 import NgVerif.Model.Routing
 import NgVerif.Model.Shard
+import NgVerif.Model.CsegDecode
 /-
   ngdriver: line protocol. One request per line on stdin (space-separated tokens),
   one reply per line on stdout. Unknown / malformed requests answer `bad-request`.
@@ -69,6 +70,19 @@ def shardBuild (m s p : Nat) (ops : List (Nat × Bytes)) : String :=
   | none => "err ShardedIOError"
   | some f => "ok " ++ bytesToHex f
 
+def parseShape (t : String) : Option Cseg.Shape :=
+  match parseList parseNat t with
+  | some [c, z, y, x] => some ⟨c, z, y, x⟩
+  | _ => none
+
+def parseBlk (t : String) : Option Cseg.Blk3 :=
+  match parseList parseNat t with
+  | some [a, b, c] => some ⟨a, b, c⟩
+  | _ => none
+
+def showErr : Cseg.Err → String
+  | .format => "format" | .struct => "struct" | .value => "value" | .index => "index"
+
 def handle (toks : List String) : String :=
   match toks with
   | ["readable", n] =>
@@ -133,6 +147,27 @@ def handle (toks : List String) : String :=
     | some m, some p, some f, some ids =>
       " ".intercalate (ids.map fun id => match Shard.implFetch m p f id with
         | none => "none" | some b => bytesToHex b)
+    | _, _, _, _ => "bad-request"
+  | ["cseg-encode", isz, shape, blk, data] =>
+    match parseNat isz, parseShape shape, parseBlk blk, parseList parseNat data with
+    | some i, some s, some b, some d =>
+      match Cseg.encode i s b d with
+      | some bytes => "ok " ++ bytesToHex bytes
+      | none => "err"
+    | _, _, _, _ => "bad-request"
+  | ["cseg-spec", isz, shape, blk, file] =>
+    match parseNat isz, parseShape shape, parseBlk blk, hexToBytes file with
+    | some i, some s, some b, some f =>
+      match Cseg.specDecode i s b f with
+      | some d => "ok " ++ showNatList d
+      | none => "none"
+    | _, _, _, _ => "bad-request"
+  | ["cseg-impl", isz, shape, blk, file] =>
+    match parseNat isz, parseShape shape, parseBlk blk, hexToBytes file with
+    | some i, some s, some b, some f =>
+      match Cseg.implDecode i s b f with
+      | .ok d => "ok " ++ showNatList d
+      | .error e => "err " ++ showErr e
     | _, _, _, _ => "bad-request"
   | _ => "bad-request"
 
